@@ -99,17 +99,20 @@ Step(a, e, c, d, o, p, r, res, ga) ==
 Init == g = Boot /\ hist = <<>>
 
 Perturb == \E s \in PerturbSeeds :
+              /\ Len(hist) < MaxLen
               /\ g' = Reseed(s)
               /\ hist' = Append(hist, Step("Perturb", "-", "-", 0, 0, 0, s, NoResult, g'))
-PerturbDraw == /\ g' = Adv(g, 1)
+PerturbDraw == /\ Len(hist) < MaxLen
+               /\ g' = Adv(g, 1)
                /\ hist' = Append(hist, Step("PerturbDraw", "-", "-", 0, 0, 0, 0, NoResult, g'))
 Fit == \E e \in Ests, d \in Problems, o \in Orders :
          \E c \in Configs(e), p \in (IF Labelled(e) THEN Relabels ELSE {1}),
             r \in (IF Seeded(e) THEN Seeds ELSE {0}) :
+              /\ Len(hist) < MaxLen
               /\ g' = Run(g, e, c, r).g
               /\ hist' = Append(hist, Step("Fit", e, c, d, o, p, r, Result(g, e, c, d, o, p, r), g'))
 
-Next == Len(hist) < MaxLen /\ (Perturb \/ PerturbDraw \/ Fit)
+Next == Perturb \/ PerturbDraw \/ Fit
 Spec == Init /\ [][Next]_vars
 
 \* ---------------- properties (C16)
